@@ -146,6 +146,7 @@ def parse(text):
         ratio, n = _fig(fig) if fig is not None else (None, None)
         last = {'inv': inv, 'prop': prop, 'types': types, 'card': card, 'ratio': ratio, 'n': n,
                 'prop_tok': toks[0], 'type_toks': [t for t in rest if t != 'OR'],
+                'value_set': [t.startswith('[') and t.endswith(']') for t in rest if t != 'OR'],
                 'has_fig': fig is not None, 'closed': closed, 'comments': []}
         cur['stmts'].append(last)
     if in_body or (cur is not None):
